@@ -2,10 +2,13 @@ package main
 
 import (
 	"bytes"
+	"cmp"
 	"encoding/json"
+	"errors"
 	"fmt"
 	"os"
 	"path/filepath"
+	"slices"
 	"sort"
 	"strings"
 	"time"
@@ -39,50 +42,94 @@ func (k *c11Ranker) ranks() map[string]int {
 	return m
 }
 
-func c11RuleKind(r parser.Rule) string {
-	return fmt.Sprintf("%v|%v|%v", r.AlertingRule != nil, r.RecordingRule != nil, r.Error)
+// what cmpRules looks at after lines and name: (alerting, recording, error line, error details, error set, error text)
+type c11RuleKindT struct {
+	alerting, recording bool
+	errLine             int
+	errDetails          string
+	errSet              bool
+	errText             string
 }
 
-func c11Stream(reps []reporter.Report) string { return c11TaggedStream(reps, nil) }
+func c11RuleKind(r parser.Rule) c11RuleKindT {
+	k := c11RuleKindT{alerting: r.AlertingRule != nil, recording: r.RecordingRule != nil, errLine: r.Error.Line, errDetails: r.Error.Details, errSet: r.Error.Err != nil}
+	if r.Error.Err != nil {
+		k.errText = r.Error.Err.Error()
+	}
+	return k
+}
 
-func c11TaggedStream(reps []reporter.Report, jobs []int) string {
+func c11CmpBool(a, b bool) int {
+	switch {
+	case a == b:
+		return 0
+	case b:
+		return -1
+	}
+	return 1
+}
+
+func c11CmpKind(a, b c11RuleKindT) int {
+	return cmp.Or(c11CmpBool(a.alerting, b.alerting), c11CmpBool(a.recording, b.recording), cmp.Compare(a.errLine, b.errLine),
+		cmp.Compare(a.errDetails, b.errDetails), c11CmpBool(a.errSet, b.errSet), cmp.Compare(a.errText, b.errText))
+}
+
+func c11Stream(reps []reporter.Report) string { s, _ := c11TaggedStream(reps, nil); return s }
+
+// the stream as ranks, and the function that writes any report of it the way the Lean driver does (keyOf)
+func c11TaggedStream(reps []reporter.Report, jobs []int) (string, func(reporter.Report) string) {
 	rk := &c11Ranker{all: map[string]bool{}}
+	var kinds []c11RuleKindT
 	for _, r := range reps {
-		for _, s := range []string{r.Path.Name, r.Path.SymlinkTarget, r.Owner, r.Problem.Reporter, r.Problem.Summary, c11RuleKind(r.Rule), r.Problem.Details} {
+		for _, s := range []string{r.Path.Name, r.Path.SymlinkTarget, r.Owner, r.Problem.Reporter, r.Problem.Summary, r.Problem.Details, r.Rule.Name()} {
 			rk.add(s)
 		}
 		for _, d := range r.Problem.Diagnostics {
 			rk.add(d.Message)
 		}
+		k := c11RuleKind(r.Rule)
+		if !slices.Contains(kinds, k) {
+			kinds = append(kinds, k)
+		}
 	}
+	slices.SortFunc(kinds, c11CmpKind)
 	m := rk.ranks()
-	var out []map[string]any
-	for i, r := range reps {
+	enc := func(r reporter.Report) map[string]any {
 		dg := []map[string]any{}
 		for _, d := range r.Problem.Diagnostics {
 			dg = append(dg, map[string]any{"f": d.FirstColumn, "l": d.LastColumn, "m": m[d.Message]})
 		}
-		out = append(out, map[string]any{"pn": m[r.Path.Name], "pt": m[r.Path.SymlinkTarget], "ow": m[r.Owner], "pf": r.Problem.Lines.First, "pl": r.Problem.Lines.Last,
-			"rf": r.Rule.Lines.First, "rl": r.Rule.Lines.Last, "rk": m[c11RuleKind(r.Rule)], "rp": m[r.Problem.Reporter], "su": m[r.Problem.Summary],
-			"id": i, "sv": int(r.Problem.Severity), "dg": dg})
+		return map[string]any{"pn": m[r.Path.Name], "pt": m[r.Path.SymlinkTarget], "ow": m[r.Owner], "pf": r.Problem.Lines.First, "pl": r.Problem.Lines.Last,
+			"rf": r.Rule.Lines.First, "rl": r.Rule.Lines.Last, "rn": m[r.Rule.Name()], "rk": slices.Index(kinds, c11RuleKind(r.Rule)), "rp": m[r.Problem.Reporter], "su": m[r.Problem.Summary],
+			"de": m[r.Problem.Details], "an": int(r.Problem.Anchor), "sv": int(r.Problem.Severity), "dg": dg}
+	}
+	var out []map[string]any
+	for i, r := range reps {
+		out = append(out, enc(r))
 		if jobs != nil {
 			out[len(out)-1]["job"] = jobs[i]
 			out[len(out)-1]["seq"] = i
-			out[len(out)-1]["id"] = m[r.Problem.Details] // monitors compare whole reports: the real details, not a stream index
 		}
 	}
 	if out == nil {
 		out = []map[string]any{}
 	}
+	key := func(r reporter.Report) string {
+		e := enc(r)
+		var ds []string
+		for _, d := range e["dg"].([]map[string]any) {
+			ds = append(ds, fmt.Sprintf("%v,%v,%v", d["f"], d["l"], d["m"]))
+		}
+		return fmt.Sprintf("%v.%v.%v.%v.%v.%v.%v.%v.%v.%v.%v.%v.%v.%v[%s]", e["pn"], e["pt"], e["ow"], e["pf"], e["pl"], e["rf"], e["rl"], e["rn"], e["rk"], e["rp"], e["su"], e["de"], e["an"], e["sv"], strings.Join(ds, "|"))
+	}
 	b, _ := json.Marshal(out)
-	return string(b)
+	return string(b), key
 }
 
-// run the real Summary over a stream whose reports carry their stream index in ModifiedLines[0]
-func c11RealPipeline(reps []reporter.Report) (string, reporter.Summary) {
+// run the real Summary over a stream; the answer names every report by its content (key)
+func c11RealPipeline(reps []reporter.Report, key func(reporter.Report) string) (string, reporter.Summary) {
 	var s reporter.Summary
-	for i, r := range reps {
-		r.ModifiedLines = []int{i}
+	for _, r := range reps {
 		r.Problem.Diagnostics = append([]diags.Diagnostic{}, r.Problem.Diagnostics...) // SortReports sorts in place
 		s.Report(r)
 	}
@@ -92,9 +139,9 @@ func c11RealPipeline(reps []reporter.Report) (string, reporter.Summary) {
 	for _, r := range s.Reports() {
 		var dl []string
 		for _, d := range r.Duplicates {
-			dl = append(dl, fmt.Sprint(d.ModifiedLines[0]))
+			dl = append(dl, key(*d))
 		}
-		parts = append(parts, fmt.Sprintf("%d:%s:%s", r.ModifiedLines[0], hx.B(r.IsDuplicate), strings.Join(dl, ",")))
+		parts = append(parts, fmt.Sprintf("%s:%s:%s", key(r), hx.B(r.IsDuplicate), strings.Join(dl, "+")))
 	}
 	return strings.Join(parts, ";"), s
 }
@@ -109,10 +156,13 @@ func c11RandReport(r *hx.Run) reporter.Report {
 		plast = first + rr.Intn(3)
 	}
 	rule := parser.Rule{Lines: diags.LineRange{First: first, Last: rlast}}
-	if rr.Intn(2) == 0 {
-		rule.AlertingRule = &parser.AlertingRule{}
-	} else {
-		rule.RecordingRule = &parser.RecordingRule{}
+	switch rr.Intn(5) {
+	case 0, 1:
+		rule.AlertingRule = &parser.AlertingRule{Alert: parser.YamlNode{Value: hx.Pick(rr, []string{"foo", "bar"})}}
+	case 2, 3:
+		rule.RecordingRule = &parser.RecordingRule{Record: parser.YamlNode{Value: hx.Pick(rr, []string{"foo", "bar"})}}
+	default: // a rule that did not parse: two parser runs give two error values with one text
+		rule.Error = parser.ParseError{Line: first, Err: errors.New(hx.Pick(rr, []string{"missing expr key", "invalid field"})), Details: hx.Pick(rr, []string{"", "x"})}
 	}
 	var ds []diags.Diagnostic
 	for i, n := 0, rr.Intn(3); i < n; i++ {
@@ -123,8 +173,8 @@ func c11RandReport(r *hx.Run) reporter.Report {
 	if rr.Intn(3) == 0 {
 		pt = hx.Pick(rr, []string{"a.yml", "b.yml", "c.yml"}) // reported through a symlink
 	}
-	return reporter.Report{Path: discovery.Path{Name: p, SymlinkTarget: pt}, Rule: rule,
-		Problem: checks.Problem{Reporter: hx.Pick(rr, []string{"promql/series", "rule/label"}), Summary: hx.Pick(rr, []string{"s1", "s2"}),
+	return reporter.Report{Path: discovery.Path{Name: p, SymlinkTarget: pt}, Rule: rule, Owner: hx.Pick(rr, []string{"", "", "team"}),
+		Problem: checks.Problem{Anchor: checks.Anchor(rr.Intn(5) / 4), Reporter: hx.Pick(rr, []string{"promql/series", "rule/label"}), Summary: hx.Pick(rr, []string{"s1", "s2"}),
 			Details: hx.Pick(rr, []string{"", "d"}), Severity: checks.Severity(1 + rr.Intn(2)), Lines: diags.LineRange{First: first, Last: plast}, Diagnostics: ds}}
 }
 
@@ -188,8 +238,12 @@ func c11Observe(r *hx.Run, cs c11Case) {
 		return
 	}
 	// monitors (decided by the Lean model on the real stream): the hypotheses of C11_schedules
-	r.Stat("schedmon\t" + c11TaggedStream(res.Raw, res.RawJob))
-	_, s0 := c11RealPipeline(res.Raw)
+	tagged, key := c11TaggedStream(res.Raw, res.RawJob)
+	r.Stat("schedmon\t" + tagged)
+	// the real stream through the model too
+	rawStream, _ := c11TaggedStream(res.Raw, nil)
+	ans0, s0 := c11RealPipeline(res.Raw, key)
+	r.Op("pipeline\t"+rawStream, ans0)
 	base := c11Render(s0)
 	r.Case(fmt.Sprint(cs), len(res.Raw) > 1)
 	r.Count(fmt.Sprintf("stream-len:%d", min(len(res.Raw)/5*5, 40)))
@@ -215,7 +269,7 @@ func c11Observe(r *hx.Run, cs c11Case) {
 			pos[j]++
 			remaining--
 		}
-		_, sp := c11RealPipeline(perm)
+		_, sp := c11RealPipeline(perm, key)
 		if got := c11Render(sp); got != base {
 			r.Violate(hx.Violation{Class: "schedule-changes-output", Input: cs, Observed: firstDiff(base, got),
 				Expected: "identical JSON, console output and severity counts for every interleaving of the jobs' reports"})
@@ -286,10 +340,46 @@ rule {
 }
 `
 
+// two checks whose problems differ in nothing but the details (the comment), and two whose problems are identical
+const c11SameButDetails = `
+rule {
+  label "team" {
+    required = true
+    comment  = "AAA: every rule needs a team label"
+  }
+}
+rule {
+  label "team" {
+    required = true
+    value    = "a|b"
+    comment  = "BBB: team must be a or b"
+  }
+}
+rule {
+  label "tier" {
+    value = "a|b"
+  }
+}
+rule {
+  label "tier" {
+    value    = "a|b"
+    required = true
+  }
+}
+`
+
 func c11GenCase(r *hx.Run) c11Case {
 	cs := c11Case{Config: c08AllKinds, Files: map[string]string{}}
 	if r.Rng.Intn(2) == 0 {
 		cs.Config += c11SecondInstances
+	}
+	if r.Rng.Intn(3) == 0 {
+		cs.Config += c11SameButDetails
+	}
+	if r.Rng.Intn(4) == 0 {
+		// flow style: several rules on one line; labels before expr: the problem does not end on the rule's last line
+		cs.Files["rules/flow.yml"] = "groups:\n- name: flow\n  rules: [{record: foo:sum, expr: sum(up)}, {record: bar:sum, expr: sum(up)}, {alert: Foo, expr: up == 0}]\n" +
+			"- name: g2\n  rules:\n  - alert: LabelsNotLast\n    labels:\n      tier: c\n      team: c\n    expr: up == 0\n  - alert: LabelsLast\n    expr: up == 0\n    labels:\n      tier: c\n      team: c\n"
 	}
 	for i, n := 0, 1+r.Rng.Intn(3); i < n; i++ {
 		cs.Files[fmt.Sprintf("rules/f%d.yml", i)] = enFile(r)
@@ -330,8 +420,9 @@ func runC11(r *hx.Run, replay string) {
 		if r.Rng.Intn(3) == 0 && len(reps) > 0 {
 			reps = append(reps, reps[r.Rng.Intn(len(reps))])
 		}
-		ans, _ := c11RealPipeline(reps)
-		r.Op("pipeline\t"+c11Stream(reps), ans)
+		stream, key := c11TaggedStream(reps, nil)
+		ans, _ := c11RealPipeline(reps, key)
+		r.Op("pipeline\t"+stream, ans)
 	}
 	bin := os.Getenv("PINT_BIN")
 	raceBin := os.Getenv("PINT_RACE_BIN")
